@@ -82,6 +82,16 @@ func (s *Symbolizer) frameOf(c *Ctx) *frame {
 			for _, b := range mc.Bindings {
 				fr.free = append(fr.free, s.sym(pf, b))
 			}
+		} else if ph, ok := call.Value.(*ssa.Phi); ok && len(c.Fn.FreeVars) > 0 {
+			// a local function variable holding one of several literals: the literal that is this context's function
+			for _, ev := range ph.Edges {
+				if mc, ok := ev.(*ssa.MakeClosure); ok && mc.Fn == ssa.Value(c.Fn) {
+					for _, b := range mc.Bindings {
+						fr.free = append(fr.free, s.sym(pf, b))
+					}
+					break
+				}
+			}
 		} else if len(c.Fn.FreeVars) > 0 {
 			// a call through a function-typed parameter that the expanded CFG resolved to a closure created further
 			// up (a bound method or literal passed as an argument): its free variables are bound where it was made
